@@ -96,6 +96,39 @@ def generate(seed, tier, prop):
             "heat_capacity": rng.choice([["constant", 4180.0, False], ["linear", 0.5, 4000.0]])}}
         program["fluid"] = "custom_liquid"
     if prop == "C15":
+        if rng.random() < 0.35:
+            # the standard type library is part of what is saved: user-changed, user-defined and deleted types
+            used_pumps = {o["kw"]["std_type"] for o in program["ops"] if o["fn"] == "create_pump"}
+            used_pipes = {o["kw"]["std_type"] for o in program["ops"] if o["fn"] == "create_pipe"}
+            eds = []
+            for _ in range(rng.randint(1, 3)):
+                kind = rng.choice(["pipe_change", "pipe_new", "pipe_delete", "pump_redefine", "pump_delete"])
+                if kind == "pipe_change":
+                    eds.append({"kind": kind, "name": rng.choice(netgen.PIPE_STD_TYPES), "data": {"k_mm": rng.choice([0.7, 0.03])}})
+                elif kind == "pipe_new":
+                    eds.append({"kind": kind, "name": "my_pipe_%d" % len(eds), "data": {"inner_diameter_mm": 123.4, "outer_diameter_mm": 140.0,
+                                                                                      "k_mm": 0.15, "u_w_per_m2k": 1.1, "note": "custom"}})
+                elif kind == "pipe_delete":
+                    cand = [n_ for n_ in ("315_PE_80_SDR_17", "80_GGG", "200_ST<16") if n_ not in used_pipes]
+                    if cand:
+                        eds.append({"kind": kind, "name": rng.choice(cand)})
+                elif kind == "pump_redefine":
+                    eds.append({"kind": kind, "name": rng.choice(["P1", "P2"]), "coeffs": [round(rng.uniform(-0.002, -0.0005), 5), 0.01, round(rng.uniform(4, 9), 2)]})
+                else:
+                    cand = [n_ for n_ in ("P3", "P2") if n_ not in used_pumps]
+                    if cand:
+                        eds.append({"kind": kind, "name": cand[0]})
+            # one edit per type name
+            seen_, eds2 = set(), []
+            for e_ in eds:
+                if (e_["kind"][:4], e_["name"]) not in seen_:
+                    seen_.add((e_["kind"][:4], e_["name"]))
+                    eds2.append(e_)
+            program["std_edits"] = eds2
+        if rng.random() < 0.3:
+            # entries of the net that are not tables: kept as they are (tuples stay tuples)
+            program["entries"] = {"project_info": rng.choice([{"__tuple__": ["rev", 3]}, {"owner": "x", "limits": {"__tuple__": [1.5, 2.5]}},
+                                                               ["a", 1, 2.5]])}
         if rng.random() < 0.4:
             program["sector"] = {"gas": "gas", "water": "water", "heat": "heat"}[fam]
         if rng.random() < 0.4:
@@ -377,6 +410,8 @@ class _Gen:
                     kw[k] = max(kw[k], 40)
             kw.pop("alpha", None) if rng.random() < 0.5 else None
             return {"op": "setopt", "reset": reset, "kw": kw}
+        if self.prop == "C15" and rng.random() < 0.25:
+            kw["my_unknown_option"] = rng.choice([{"__tuple__": [1, 2.5]}, {"__tuple__": ["a", "b"]}, [1, 2]])
         if rng.random() < 0.8:
             full = self.calc_kw()
             keys = sorted(k for k in full if k not in ("mode",))
@@ -390,9 +425,10 @@ class _Gen:
 
     def op_restart(self):
         rng = self.rng
-        path = rng.choice(["json_str", "json_file", "json_fobj", "json_enc", "pickle_path", "pickle_fobj"])
+        path = rng.choice(["json_str", "json_file", "json_fobj", "json_enc", "json_file_enc", "json_fobj_enc", "pickle_path",
+                           "pickle_fobj"])
         fault = None
-        if not self.knobs["fault_free"] and path in ("json_file", "pickle_path") and rng.random() < 0.25:
+        if not self.knobs["fault_free"] and path in ("json_file", "json_file_enc", "pickle_path") and rng.random() < 0.25:
             fault = rng.choice(["open", "write"])
         return {"op": "restart", "path": path, "disk_fault": fault,
                 "errno": rng.choice([28, 5])}
@@ -684,6 +720,7 @@ def _execute(trace, res, prop, program, meta, ops, solver, fs):
 
         # --------------------------------------------------------------------------------
         if kind == "setopt":
+            op = dict(op, kw=netmodel.realise_markers(op["kw"]))
             kwc = copy.deepcopy(op["kw"])
             for s in [live, shadow] + replicas:
                 if s is not None:
@@ -1055,7 +1092,9 @@ KEY = "verif-key"
 # attributes of pandapower helper objects that are caches rebuilt by init_all() at the start of every
 # time-series run (not part of what a user stored)
 OBJECT_VOLATILE = {"OutputWriter": ("output_list", "time_step_lookup", "np_results", "output", "cur_realtime",
-                                    "time_step", "time_steps")}
+                                    "time_step", "time_steps"),
+                   # the values written in the last time step: overwritten by time_step() before every use
+                   "ConstControl": ("values",)}
 
 
 def _save_load(net, path, fs, fault, eno, n):
@@ -1078,6 +1117,14 @@ def _save_load(net, path, fs, fault, eno, n):
             pp.to_json(net, buf)
             buf.seek(0)
             return pp.from_json(buf), None
+        if path == "json_file_enc":
+            pp.to_json(net, fname + ".enc.json", encryption_key=KEY)
+            return pp.from_json(fname + ".enc.json", encryption_key=KEY), None
+        if path == "json_fobj_enc":
+            buf = io.StringIO()
+            pp.to_json(net, buf, encryption_key=KEY)
+            buf.seek(0)
+            return pp.from_json(buf, encryption_key=KEY), None
         if path == "pickle_path":
             pp.to_pickle(net, fname + ".p")
             return pp.from_pickle(fname + ".p"), None
